@@ -145,7 +145,8 @@ def generate(seed, tier):
         points.append({'kind': 'sheet', 'b': b, 's': s})
     for k in range(len(world['names'])):
         if fr.chance(.5):
-            points.append({'kind': 'name', 'k': k})
+            points.append({'kind': 'name', 'k': k,
+                           'broken': fr.chance(.4)})
     points = points[:5]
     fcells = [i for i, c in enumerate(world['cells'])
               if 'f' in c and 'arr' not in c]
@@ -221,7 +222,7 @@ def instantiate(world, points, on):
     """Concrete world for the fault vector ``on`` (set of point indices)."""
     w = copy.deepcopy(world)
     info = {'absent_sheets': [], 'bad_books': {}, 'bad_names': [],
-            'unknown_cells': [], 'reflit_cells': []}
+            'unknown_cells': [], 'reflit_cells': [], 'broken_names': []}
     by_id = {p.get('id'): (k, p) for k, p in enumerate(points)}
 
     def fix(e):
@@ -247,6 +248,8 @@ def instantiate(world, points, on):
             info['absent_sheets'].append((p['b'], p['s']))
         elif p['kind'] == 'name':
             info['bad_names'].append(p['k'])
+            if p.get('broken'):
+                info['broken_names'].append(p['k'])
         elif p['kind'] == 'func':
             info['unknown_cells'].append(p['cell'])
         elif p['kind'] == 'reflit':
@@ -334,6 +337,7 @@ def run_one(world, placement, sched, info, transient, log, stats):
                            skip_sheets=[tuple(x) for x in
                                         info['absent_sheets']],
                            skip_names=info['bad_names'],
+                           broken_names=info.get('broken_names', ()),
                            extlinks=sched.get('extlinks', False))
         for name, data in books.items():
             disk.put(name, data)
@@ -433,7 +437,8 @@ def describe(points, on):
         elif p['kind'] == 'sheet':
             out.append('sheet%d.%d absent' % (p['b'], p['s']))
         elif p['kind'] == 'name':
-            out.append('name%d undefined' % p['k'])
+            out.append('name%d %s' % (p['k'], 'defined as #REF!'
+                                      if p.get('broken') else 'undefined'))
         elif p['kind'] == 'func':
             out.append('cell%d calls %s' % (p['cell'], p['name']))
         else:
